@@ -1,3 +1,4 @@
 import mi_harness
 import sys
-sys.exit(mi_harness.main("C03"))
+import common
+sys.exit(common.run_main(lambda: mi_harness.main("C03")))
